@@ -58,6 +58,10 @@ class Sym:
         return self.name
 
 
+EXC_PARENTS = {"IndexError": "LookupError", "KeyError": "LookupError", "UnicodeError": "ValueError", "RecursionError": "RuntimeError",
+               "PestGrammarSyntaxError": "PestGrammarError", "OverflowError": "ArithmeticError", "ZeroDivisionError": "ArithmeticError"}
+
+
 class _Return(Exception):
     def __init__(self, value: Any):
         self.value = value
@@ -75,11 +79,12 @@ CMP = {
     ast.Eq: operator.eq, ast.NotEq: operator.ne, ast.Lt: operator.lt, ast.LtE: operator.le, ast.Gt: operator.gt, ast.GtE: operator.ge,
     ast.Is: operator.is_, ast.IsNot: operator.is_not, ast.In: lambda a, b: a in b, ast.NotIn: lambda a, b: a not in b,
 }
-BIN = {ast.Add: operator.add, ast.Sub: operator.sub, ast.Mult: operator.mul, ast.BitOr: operator.or_, ast.BitAnd: operator.and_, ast.FloorDiv: operator.floordiv, ast.Mod: operator.mod}
+BIN = {ast.Add: operator.add, ast.Sub: operator.sub, ast.Mult: operator.mul, ast.BitOr: operator.or_, ast.BitAnd: operator.and_, ast.FloorDiv: operator.floordiv, ast.Mod: operator.mod, ast.Pow: operator.pow, ast.LShift: operator.lshift}
 
 SAFE_BUILTINS: dict[str, Callable] = {
     "len": len, "max": max, "min": min, "ord": ord, "chr": chr, "range": range, "any": any, "all": all, "sorted": sorted,
     "reversed": lambda x: list(reversed(x)), "abs": abs, "int": int, "set": set, "list": list, "tuple": tuple, "bool": bool, "str": str,
+    "frozenset": frozenset, "dict": dict, "hex": hex, "divmod": divmod, "repr": repr, 
     "enumerate": lambda x, start=0: list(enumerate(x, start)), "zip": lambda *a: list(zip(*a)), "sum": sum,
     "repeat": lambda x, n: [x] * n,  # itertools.repeat with a count
     "chain": lambda *its: [x for it in its for x in it],  # itertools.chain
@@ -169,9 +174,12 @@ class Ev:
                 return base[lo:hi:st]
             idx = self.ev(n.slice)
             if isinstance(base, Obj):
+                if callable(base.__dict__.get("__getitem__")):
+                    return base.__dict__["__getitem__"](idx)
                 m = self.dunder(base, "__getitem__")
                 if m is None:
-                    raise _ModelRaise("TypeError: not subscriptable")
+                    # a gap of the model (a stub object), not a property of the code under analysis
+                    raise self.bad(n, f"subscript of a model object of kind {base.kinds[0]}")
                 return m(base, idx)
             try:
                 return base[idx]
@@ -225,6 +233,28 @@ class Ev:
             return {self.ev(e) for e in n.elts}
         if isinstance(n, (ast.GeneratorExp, ast.ListComp, ast.SetComp)):
             return self.comp(n)
+        if isinstance(n, ast.Lambda):
+            params = [a.arg for a in n.args.args]
+            outer = self
+
+            def lam(*args: Any) -> Any:
+                sub = Ev({**outer.env, **dict(zip(params, args))}, outer.where, outer.methods, outer.max_steps)
+                return sub.ev(n.body)
+
+            return lam
+        if isinstance(n, ast.DictComp):
+            if len(n.generators) != 1:
+                raise self.bad(n, "nested comprehension")
+            g = n.generators[0]
+            outd: dict = {}
+            saved = dict(self.env)
+            for item in self.iterate(self.ev(g.iter)):
+                self.assign(g.target, item)
+                if all(self.ev(i) for i in g.ifs):
+                    outd[self.ev(n.key)] = self.ev(n.value)
+            self.env.clear()
+            self.env.update(saved)
+            return outd
         if isinstance(n, ast.NamedExpr):
             v = self.ev(n.value)
             self.env[n.target.id] = v
@@ -340,10 +370,23 @@ class Ev:
                         kw[k.arg] = self.ev(k.value)
                 try:
                     return SAFE_BUILTINS[f.id](*args, **kw)
-                except (ValueError, TypeError) as err:
+                except (ValueError, TypeError, OverflowError) as err:
                     raise _ModelRaise(type(err).__name__) from err
             if f.id == "iter":
                 return self.iterate(self.ev(n.args[0]))
+            if f.id in ("map", "filter") and len(n.args) == 2:
+                fn_node = n.args[0]
+                seq = self.iterate(self.ev(n.args[1]))
+                if isinstance(fn_node, ast.Name) and fn_node.id in SAFE_BUILTINS and fn_node.id not in self.env:
+                    g = SAFE_BUILTINS[fn_node.id]
+                else:
+                    g = self.ev(fn_node)
+                    if not callable(g):
+                        raise self.bad(n, "map/filter over a non-callable")
+                try:
+                    return [g(x) for x in seq] if f.id == "map" else [x for x in seq if g(x)]
+                except (ValueError, TypeError) as err:
+                    raise _ModelRaise(type(err).__name__) from err
             raise self.bad(n, "call of an unknown function")
         if isinstance(f, ast.Attribute):
             recv = self.ev(f.value)
@@ -489,7 +532,49 @@ class Ev:
                 if not self.ev(s.test):
                     raise _ModelRaise("AssertionError")
             elif isinstance(s, ast.Raise):
-                raise _ModelRaise(ast.unparse(s.exc)[:40] if s.exc else "raise")
+                if s.exc is None:
+                    raise _ModelRaise(self.env.get("__active_exc__", "raise"))
+                name = ast.unparse(s.exc.func) if isinstance(s.exc, ast.Call) else ast.unparse(s.exc)
+                raise _ModelRaise(name.split(".")[-1])
+            elif isinstance(s, ast.Try):
+                try:
+                    self.run(s.body)
+                except _ModelRaise as err:
+                    exc_name = str(err).split(":")[0].split("(")[0].strip()
+                    handled = False
+                    for h in s.handlers:
+                        names = [] if h.type is None else [ast.unparse(e).split(".")[-1] for e in (h.type.elts if isinstance(h.type, ast.Tuple) else [h.type])]
+                        if h.type is None or exc_name in names or "Exception" in names or (exc_name in EXC_PARENTS and EXC_PARENTS[exc_name] in names):
+                            handled = True
+                            saved = self.env.get("__active_exc__", _MISSING)
+                            self.env["__active_exc__"] = exc_name
+                            if h.name:
+                                self.env[h.name] = Sym(exc_name)
+                            try:
+                                self.run(h.body)
+                            finally:
+                                if saved is _MISSING:
+                                    self.env.pop("__active_exc__", None)
+                                else:
+                                    self.env["__active_exc__"] = saved
+                            break
+                    if not handled:
+                        self.run(s.finalbody)
+                        raise
+                else:
+                    self.run(s.orelse)
+                self.run(s.finalbody)
+            elif isinstance(s, ast.With):
+                # contextlib.suppress(...) only
+                if len(s.items) == 1 and isinstance(s.items[0].context_expr, ast.Call) and ast.unparse(s.items[0].context_expr.func).split(".")[-1] == "suppress":
+                    names = [ast.unparse(a).split(".")[-1] for a in s.items[0].context_expr.args]
+                    try:
+                        self.run(s.body)
+                    except _ModelRaise as err:
+                        if str(err).split(":")[0].split("(")[0].strip() not in names:
+                            raise
+                else:
+                    raise self.bad(s, "with statement")
             elif isinstance(s, ast.FunctionDef):
                 self.env[s.name] = self.closure(s)
             elif isinstance(s, ast.Match):
